@@ -302,6 +302,7 @@ class Impl:
         self.lines = []      # annotated DSL
         self.blocks = []     # observation blocks (list of lines)
         self.max_exec = 0
+        self.bare_prio = False
 
     # -- object construction
     def timing_obj(self, e):
@@ -508,6 +509,19 @@ class Impl:
             return star
         return wrapper
 
+    def bare_prio_events(self):
+        """what prio_wrapper would have logged during the coming (non-forced) poll: same registry order, same clock"""
+        sch = self.sch
+        registered = list(sch._Scheduler__jobs)
+        now_dt = dt.datetime.now(sch._Scheduler__tzinfo)
+        for job in registered:
+            seconds = -job.timedelta(now_dt).total_seconds()
+            val = self.bare_inner(seconds, job, self.max_exec, len(registered))
+            fr = Fraction(val)
+            self.events.append("EV prio %d %d %d %d %d/%d" % (
+                self.job_id(job), round(seconds * 10**6), self.max_exec, len(registered),
+                fr.numerator, fr.denominator))
+
     def table_prio(self, seconds, job, max_exec, job_count):
         fr = self.table.get(self.job_id(job), Fraction(0))
         return float(fr) if fr.denominator != 1 else int(fr)
@@ -560,8 +574,15 @@ class Impl:
                  "const": m["prioritization"].constant_weight_prioritization,
                  "table": self.table_prio}[prio]
         self.star_prio = ((now // 1000) + mx) % 3 == 0       # a function of the history: replays agree
-        kw = dict(max_exec=mx, tzinfo=tzof(tz), priority_function=self.prio_wrapper(inner),
+        # in a quarter of the histories with a built-in priority function the scheduler gets the function object itself
+        # (or, for the linear one, nothing: the default) instead of the logging wrapper; the evaluations the wrapper
+        # would have logged are then computed by the harness right before each poll (bare_prio_events)
+        self.bare_prio = prio in ("linear", "const") and ((now // 1000) + 3 * mx) % 4 == 1
+        self.bare_inner = inner
+        kw = dict(max_exec=mx, tzinfo=tzof(tz), priority_function=inner if self.bare_prio else self.prio_wrapper(inner),
                   jobs=jobs, n_threads=self.n_threads)
+        if self.bare_prio and prio == "linear" and (now // 1000) % 2 == 0:
+            del kw["priority_function"]
         if self.user_logger:
             self.logger = logging.getLogger("verif.user.%d" % id(self))
             self.logger.propagate = False
@@ -639,6 +660,11 @@ class Impl:
                 order = [self.job_id(j) for j in list(self.sch._Scheduler__jobs)]
                 table = o[2] or []
                 self.table = {i: Fraction(n, d) for i, n, d in table}
+                if self.bare_prio and not o[1]:
+                    try:
+                        self.bare_prio_events()
+                    except Exception:  # noqa: the poll itself raises the same way; the events so far stay
+                        pass
                 res = ("int", self.sch.exec_jobs(force_exec_all=o[1]))
             else:
                 raise ValueError(o)
